@@ -5,7 +5,7 @@ encoder's output (all cut points for short encodings, header-dense sampling for 
 decoder: it must raise asn1tools.DecodeError — not return a value, not raise a foreign exception.
 For uper/oer the Lean model decoder is run on the same prefixes and must give the same class."""
 from .. import core, impl
-from ..codecs import MODELLED, value_tags
+from ..codecs import MODELLED, value_tags, py_equal
 from ..gen import Gen, Opts, module_text, ty_sx, val_sx, features
 
 CODECS = ['ber', 'der', 'per', 'uper', 'oer']
@@ -44,8 +44,8 @@ def run(ctx):
                 data = r[1]
                 # only encodings that decode are "valid encodings" in the sense of the property
                 d0 = impl.decode(spec, 'A', data)
-                if d0[0] != 'ok':
-                    ctx.count(codec + '.skipped_undecodable')
+                if d0[0] != 'ok' or not py_equal(t, d0[1], v):
+                    ctx.count(codec + '.skipped_not_round_tripping')     # not a valid encoding (C01's business)
                     continue
                 for k in cuts(rng, len(data), ctx.quick()):
                     d = impl.decode(spec, 'A', data[:k])
